@@ -15,3 +15,6 @@ let () =
   (* the default-argument instances used by Model/Fs.v (C09): must agree with the calls without separators *)
   reg "c19.convert_file_default" (fun () -> let t = rd_str () in pr_result pr_str (convert_file t));
   reg "c19.is_valid_default" (fun () -> let t = rd_str () in pr_result pr_bool (is_valid t))
+(* the CLI's verify step on the text of one PIN file (Model/PinVerify.v) *)
+let () =
+  reg "c19.verify_text" (fun () -> let t = rd_str () in pr_result pr_str (pin_verify_text t))
